@@ -215,3 +215,81 @@ def splitread_oracle(r):
             elif o["res"] not in ("META", "MISS"):
                 bad("read-error", "a delayed meta-get answered %s" % o["res"], idx)
     return viol
+
+
+# ----------------------------------------------------------------------------- GC overtaken by a client write (C05)
+GI_HEADER = """From Coq Require Import NArith ZArith List String.
+From GB Require Import Words Compress Bucket BucketOpen CheckL2 CheckGcSplit.
+Import ListNotations. Open Scope N_scope. Open Scope string_scope.
+"""
+
+
+def gi_case(r):
+    g = r["gi"]
+    cf = g["cfg"]
+    cfg = "(mkCfg %d %d %d %s %s false %s)" % (cf["filemax"], cf["bodymax"], cf["splitcap"], vlib.cbool(cf["checkvhash"]),
+                                              vlib.cZ(cf["treedump"]), vlib.cZ(cf["nogcdays"]))
+    forced = vlib.clist(["(%s, %s)" % (vlib.cstr(k), h) for k, h in (cf.get("forced") or [])])
+
+    def ops(l):
+        return vlib.clist(["(%s, %s, None)" % (l2common.c_op(o), l2common.c_out(o)) for o in l])
+    return "(mkGI %d (mkL2 %s %s %s) %s %d%%nat %d%%nat %s %d%%nat (%s) %s %s %s)" % (
+        r["i"], cfg, forced, vlib.cZ(cf["now"]), ops(g["pre"]), g["a"], g["b"], vlib.cbool(g["merge"]), g["skip"],
+        l2common.c_op(g["op"]), l2common.c_out(g["op"]), l2common.c_out(g["gc"]), ops(g["post"]))
+
+
+def gi_evaluate(ctx, rs, tag, per=10):
+    shards = []
+    for k in range(0, len(rs), per):
+        text = (GI_HEADER + "Definition cases : list gicase := [\n" + ";\n".join(gi_case(r) for r in rs[k:k + per]) + "].\n"
+                "Definition MM := Eval vm_compute in gi_check cases.\nPrint MM.\n")
+        shards.append(("%s_%03d" % (tag, k // per), text))
+    results = vlib.run_coq_shards(os.path.join(ctx.work, "cases"), shards, timeout=3000)
+    byi = {r["i"]: r for r in rs}
+    mm, ok = [], 0
+    for name, rc, out in results:
+        a = vlib.parse_numlist(out, "MM")
+        if rc != 0 or a is None:
+            ctx.logf("shard", name, "failed rc", rc, out[-800:])
+            mm.append(dict(shard=name, what="case file did not evaluate", out=out[-300:]))
+            continue
+        if not a:
+            ok += 1
+        for x in a:
+            i, k = divmod(x, 10000)
+            r = byi[i]
+            where = ("pre-history op %d" % (k - 1001) if k < 2000 else "client reply" if k == 2001 else "GC statistics" if k == 2002
+                     else "post op %d" % (k - 3001 if k < 3500 else k - 3501))
+            mm.append(dict(case=dict(i=i, seed=r.get("seed"), scenario="gcintr", variant=r["variant"]), differs=where))
+    return mm, len(shards), ok
+
+
+def gcintr_oracle(r):
+    """independent judgement: after the pass (and again after a restart) every key reads its last acknowledged write"""
+    viol = []
+    g = r["gi"]
+
+    def bad(kind, what):
+        viol.append(dict(kind=kind, what=what, case=dict(i=r["i"], seed=r.get("seed"), scenario="gcintr", variant=r["variant"])))
+
+    cur = {}
+    for o in g["pre"] + [g["op"]]:
+        if o["op"] == "S" and o["res"] == "STORED":
+            cur[o["k"]] = o["v"]
+        elif o["op"] == "D" and o["res"] == "DELETED":
+            cur[o["k"]] = None
+    ck = g["op"].get("k")
+    for o in g["post"]:
+        if o["op"] == "G":
+            want = cur.get(o["k"])
+            got = o["out"][0] if o["res"] == "HIT" else None
+            if o["res"] not in ("HIT", "MISS"):
+                bad("read-error", "a get after the pass answered %s" % o["res"])
+            elif want != got:
+                if o["k"] == ck:
+                    bad("gc-lost-acked-write", "the write acknowledged during GC was replaced: key reads %s" % ("a value" if got else "a miss"))
+                else:
+                    bad("gc-changed-value", "GC changed what an untouched key reads")
+        elif o["op"] == "R" and o["res"] != "OK":
+            bad("restart-refused", "the store did not reopen after the pass")
+    return viol
